@@ -132,6 +132,9 @@ def child_env(th: str, native: Path, hashseed: int | str, extra: dict | None = N
     env["BASILISP_VERIF"] = "1"
     env["PYTHONUNBUFFERED"] = "1"
     env["PYTHONWARNINGS"] = "ignore"
+    scratch = WORK / "scratch"
+    scratch.mkdir(parents=True, exist_ok=True)
+    env["VERIF_SCRATCH"] = str(scratch)
     if extra:
         env.update({k: str(v) for k, v in extra.items()})
     return env
